@@ -15,7 +15,7 @@ func init() {
 		ID: "C13", Fn: c13,
 		Rule:        "budget: the time-budget computation (verif wrapper) swept over remaining time 1 ms..3 h (log grid) x increment {0, 1 ms, T/100, T/10, T/2, T, 2T, 10T} x movestogo {0,1,2,5,10,40,100} x side x positions of game phase 0..24: budget <= mover's remaining time and n*budget <= T + n*inc (n = movestogo, 15 when none); live clock searches: timer-start trace value equals the wrapper's; depth: SearchDepth == d and info depth 1..d all sent unless the root is terminal / single-move; nodes: NodesVisited <= limit + 256; searchmoves: best move in the list for random subsets of the legal root moves; movetime: elapsed <= movetime + allowance, exceedances re-run serially and only reproducible ones count; distinct = distinct parameter tuples",
 		Assumptions: []string{"allowance for the temporal clause 250 ms (parallel load), decided by isolate-and-reproduce", "node overshoot bound 256 = at most one node per ply (MaxDepth 128) while unwinding plus one per iteration"},
-		Required:    []string{"budget_evaluations", "budget_inc_gt_time", "budget_movestogo_1", "budget_opponent_has_more_time", "depth_searches", "node_searches", "node_searches_heavy_positions", "searchmoves_searches", "searchmoves_excluding_best", "movetime_searches", "clock_searches_traced"},
+		Required:    []string{"budget_evaluations", "budget_inc_gt_time", "budget_movestogo_1", "budget_opponent_has_more_time", "depth_searches", "node_searches", "node_searches_heavy_positions", "searchmoves_searches", "searchmoves_excluding_best", "movetime_searches", "movetime_searches_with_rejected_start", "clock_searches_traced"},
 		MinEvals:    10000,
 		TimeoutQ:    20 * 60e9,
 	})
@@ -111,12 +111,18 @@ func c13(c *Ctx) {
 	roots := corpusRoots()
 	var traceMu sync.Mutex
 	var timerStarts []int64
+	var timerExitEarly int
 	var timerEvents, timedSearches int // events seen / timed searches started in this loop (under traceMu)
 	search.VerifTraceHook = func(ev string, a, b int64) {
 		if ev == "timer-start" {
 			traceMu.Lock()
 			timerStarts = append(timerStarts, b)
 			timerEvents++
+			traceMu.Unlock()
+		}
+		if ev == "timer-exit-early" {
+			traceMu.Lock()
+			timerExitEarly++
 			traceMu.Unlock()
 		}
 	}
@@ -251,13 +257,44 @@ func c13(c *Ctx) {
 			}
 		case 3: // movetime
 			mt := time.Duration(10+r.Intn(120)) * time.Millisecond
+			disturbed := r.Chance(0.35)
+			if disturbed {
+				rep.Inc("movetime_searches_with_rejected_start")
+			}
 			run := func() (time.Duration, time.Duration, string) {
 				t0 := time.Now()
 				traceMu.Lock()
 				timedSearches++
 				traceMu.Unlock()
+				traceMu.Lock()
+				exitEarly0 := timerExitEarly
+				traceMu.Unlock()
 				s.StartSearch(*engPos(fen), search.Limits{TimeControl: true, MoveTime: mt})
-				s.WaitWhileSearching()
+				if disturbed {
+					// a second start while this search runs is rejected - and must leave the
+					// running search and its time limit alone
+					time.Sleep(time.Duration(1+r.Intn(6)) * time.Millisecond)
+					s.StartSearch(*engPos(fen), search.Limits{Depth: 1})
+				}
+				done := make(chan struct{})
+				go func() { s.WaitWhileSearching(); close(done) }()
+				select {
+				case <-done:
+				case <-time.After(mt + 5*time.Second):
+					// far beyond the limit: did the search's timer give up although nobody asked
+					// the search to stop?  (decided by the trace, not by the 5 s)
+					traceMu.Lock()
+					gaveUp := timerExitEarly > exitEarly0
+					traceMu.Unlock()
+					s.StopSearch()
+					<-done
+					if gaveUp {
+						rep.Viol("movetime:timer-gave-up-while-search-runs", fmt.Sprintf("go movetime %s on %s (second start rejected meanwhile: %v): the search's timer ended early without any stop request and the search ran on until it was stopped from outside after %s", mt, fen, disturbed, time.Since(t0)), payload)
+					} else {
+						rep.Inconclusive(fmt.Sprintf("movetime %s search on %s still running after %s (stopped from outside)", mt, fen, time.Since(t0)))
+					}
+					return mt, mt, fen
+				}
 				return time.Since(t0), mt, fen
 			}
 			rep.Begin(fmt.Sprintf("movetime %s %s", mt, fen))
